@@ -406,6 +406,13 @@ def run(ctx):
     C.check(okc, 'C09-DEV-counterpart', 'merge_element|position-decides-only-without-counterparts', 'merge_element classifies two elements of different kinds by their specification position without first searching each of them on the other side: '
             'the same identifiable element at different positions in the two files ends up twice in the merged model (once imported, once model-only), attributed to one file each', me.where(lt[0]) if lt else '',
             sample={'fn': 'merge_element', 'searches_before_position_rule': ['counterpart(parent_b, elem_a)', 'counterpart(parent_a, elem_b)']})
+    # calc_element_merge: non-identifiable elements of the same kind are paired positionally ONLY when their DEFINITION-REFs agree
+    cem = P.get('AutosarModel::calc_element_merge')
+    meq = [pos for pos, s_ in cem.iter_stmts() if s_['k'] == 'assign' and s_['rv']['k'] == 'agg' and s_['rv'].get('var') == 'MergeEqual']
+    eqc = [p_ for p_ in calls(cem, r'PartialEq.*::(eq|ne)$') if any('Option<' in (cem.local_ty(a_['l']) or '') and 'String' in (cem.local_ty(a_['l']) or '') for a_ in cem.blocks[p_[0]]['term']['args'] if is_local_op(a_))]
+    C.check(bool(meq) and bool(eqc) and all(any(guarded_by_true(cem, m_, q_) for q_ in eqc) for m_ in meq), 'C09-MUST-reject', 'calc_element_merge|positional-pairing-only-for-equal-definition-refs',
+            'calc_element_merge returns MergeEqual (pair the two elements by position) without having compared their DEFINITION-REFs: BSW values keyed by DEFINITION-REF under other parents than the expected one are paired with the wrong counterpart (content attributed to the wrong file, or duplicated)',
+            '%s:%d' % (cem.file, cem.line), sample={'fn': 'calc_element_merge', 'guard': 'defref_a == defref_b'})
     # a rejected file leaves nothing behind (shared with C10-MUST-rollback)
     C.rule('C09-MUST-rollback', 'when the merge of a loaded file fails, what was already merged is removed again through Element::remove_from_file(new file) before the error is returned: a rejected file does not change the model')
     from c10 import rollback_rule
